@@ -188,7 +188,11 @@ int main (void)
       if (k == 'S') {
         NiceAddress to; parse_addr (a1, a1l, &to);
         size_t n; unsigned char *p = hc_unhex (a2, &n);
-        GOutputVector v = { p, n }; NiceOutputMessage m = { &v, 1 };
+        /* the payload is handed over scattered (1..4 buffers, zero-length ones included; layout derived from its length and first byte):
+         * the relay must see the same bytes whatever the layout */
+        GOutputVector v[5]; guint nv = 1 + (n + (n ? p[0] : 0)) % 4; gsize off = 0;
+        for (guint k = 0; k < nv; k++) { gsize rem = n - off, sz = k == nv - 1 ? rem : (k == 1 && (n & 1) ? 0 : rem / (nv - k)); v[k].buffer = p + off; v[k].size = sz; off += sz; }
+        NiceOutputMessage m = { v, (gint) nv };
         gint r = nice_socket_send_messages (turn, &to, &m, 1);
         fprintf (hc_out, "S%d", r); free (p);
       } else if (k == 'B') {
